@@ -287,8 +287,21 @@ pub fn decode_seq(t: &mut Tape, max_fns: usize, max_ops: usize) -> SeqCase {
             // 17..=40 further successors, so that later repeats / reversals of the
             // early edge meet long adjacency lists
             let h1 = n / hot;
-            ops.push(if t.chance(1, 2) { Op::Logic(0, h1) } else { Op::Contains(0, h1) });
-            let fan = 17 + t.below(24);
+            let early = t.chance(1, 2);
+            if early {
+                ops.push(if t.chance(1, 2) { Op::Logic(0, h1) } else { Op::Contains(0, h1) });
+            }
+            let fan = if t.chance(1, 2) { 17 + t.below(24) } else { 33 + t.below(16) };
+            if t.chance(1, 2) {
+                // the second hot function is a hub too: 33..=48 predecessors
+                let fan_in = 33 + t.below(16);
+                for j in 0..fan_in {
+                    let p = n - 1 - j;
+                    if p != h1 && p != 0 {
+                        ops.push(if t.chance(1, 2) { Op::Logic(p, h1) } else { Op::Contains(p, h1) });
+                    }
+                }
+            }
             let mut x = 1usize;
             while x <= fan {
                 if t.chance(1, 3) && x + 2 <= fan {
@@ -298,6 +311,14 @@ pub fn decode_seq(t: &mut Tape, max_fns: usize, max_ops: usize) -> SeqCase {
                 } else {
                     ops.push(if t.chance(1, 2) { Op::Logic(0, x) } else { Op::Contains(0, x) });
                     x += 1;
+                }
+            }
+            if !early {
+                // the hub-to-hub pair is given only now, when both lists are long, and
+                // often again right away with the other kind
+                ops.push(Op::Logic(0, h1));
+                if t.chance(2, 3) {
+                    ops.push(Op::Contains(0, h1));
                 }
             }
         }
